@@ -917,7 +917,17 @@ fn compositions(n: usize) -> Vec<Vec<usize>> {
 fn child_identity(c: &mut Ctx) {
     let mut rng = Rng::derive(c.seed ^ 0xC18, c.shard);
     if c.shard % 2 == 0 {
-        let root = fsx::fresh_path("ident");
+        // where a blob lands depends on the hash only, whatever the database root is called: half
+        // of these shards use a root whose name is not valid UTF-8 (legal on Linux)
+        let top = fsx::fresh_path("ident");
+        let root = if c.shard % 4 == 2 {
+            use std::os::unix::ffi::OsStrExt;
+            let _ = std::fs::create_dir_all(&top);
+            c.rep.count("roots_with_non_utf8_name", 1);
+            top.join(std::ffi::OsStr::from_bytes(b"donn\xe9es \xff\xfe"))
+        } else {
+            top.clone()
+        };
         let cas = Cas::<u64>::open(&root, config(1000, c.shard % 4 == 0, false, false, false)).expect("open");
         let mut key = 0u64;
         let mut one = |c: &mut Ctx, content: &[u8], chunks: &[usize], key: u64| {
@@ -1089,7 +1099,17 @@ fn child_identity(c: &mut Ctx) {
             c.rep.distinct_case(format!("left{len}:{}", r % 4).as_bytes());
         }
         drop(cas);
-        fsx::rm_rf(&root);
+        // nothing may have been created next to the root (a path built from a lossy rendering of
+        // the root's name lands in a sibling directory)
+        if root != top {
+            let siblings: Vec<String> = std::fs::read_dir(&top)
+                .map(|rd| rd.flatten().map(|e| e.file_name().to_string_lossy().to_string()).collect())
+                .unwrap_or_default();
+            if siblings.len() != 1 {
+                c.fail(&["C18"], "files were created outside the database root", "placement", format!("next to the root: {siblings:?}"));
+            }
+        }
+        fsx::rm_rf(&top);
     } else {
         // hash <-> path bijection
         let mut seen: BTreeSet<PathBuf> = BTreeSet::new();
